@@ -333,6 +333,49 @@ def explore_multicall():
                 want = ('top', ctx['gen'], (('a', ctx['gen'], ()), ('b', ctx['gen'], ())))
                 if res.get(top) != want:
                     found.append(dict(prop='C02', scenario=f'multicall/{"-".join(backends)}', message=f'call {k + 1}: top read {res.get(top)!r}, this call\'s dependency results give {want!r}'))
+    found += explore_warm_cache()
+    return found
+
+
+def explore_warm_cache():
+    """Two run_tasks calls in ONE interpreter over a caching storage: whatever the first call executed and cached must be
+    loaded, not executed again, by the second call -- for the same Lab object, for a new Lab on the same directory, for
+    the same task objects and for new equal ones, whichever backends the two calls use (the save may have happened in a
+    worker process)."""
+    import labtech
+    from replay.universe import KC
+    logging.getLogger('labtech').setLevel(logging.CRITICAL)
+    found = []
+    for b1, b2 in (('fork', 'fork'), ('fork', 'serial'), ('serial', 'fork'), ('serial', 'serial')):
+        for same_lab in (True, False):
+            with tempfile.TemporaryDirectory() as d, tempfile.TemporaryDirectory() as marks:
+                os.environ['EXPLORE_EXEC_DIR'] = marks
+                try:
+                    def build():
+                        leaf1, leaf2 = KC('l1'), KC('l2')
+                        mid = KC('m', (leaf1, leaf2))
+                        return [KC('t', (mid, leaf1)), KC('u', (leaf2,))]
+                    tasks = build()
+                    lab = labtech.Lab(storage=d, runner_backend=b1, max_workers=2)
+                    r1 = lab.run_tasks(tasks, disable_progress=True, disable_top=True)
+                    n1 = len(os.listdir(marks))
+                    lab2 = lab if same_lab else labtech.Lab(storage=d, runner_backend=b2, max_workers=2)
+                    if same_lab:
+                        lab2.runner_backend = labtech.Lab(storage=d, runner_backend=b2).runner_backend
+                    tasks2 = tasks if same_lab else build()
+                    r2 = lab2.run_tasks(tasks2, disable_progress=True, disable_top=True)
+                    n2 = len(os.listdir(marks))
+                finally:
+                    os.environ.pop('EXPLORE_EXEC_DIR', None)
+                if n1 != 5:
+                    found.append(dict(prop='C03', scenario=f'warm-cache/{b1}-{b2}', message=f'the cold call executed {n1} tasks, the closure has 5'))
+                elif n2 != n1:
+                    found.append(dict(prop='C03', scenario=f'warm-cache/{b1}-{b2}/{"same Lab" if same_lab else "new Lab"}',
+                                      message=f'the second run_tasks call executed {n2 - n1} task(s) again although every result was cached by the first call'))
+                elif [r2[t] for t in tasks2] != [r1[t] for t in tasks]:
+                    found.append(dict(prop='C06', scenario=f'warm-cache/{b1}-{b2}', message='the warm call returned other values than the cold call'))
+                if found:
+                    return found
     return found
 
 
@@ -389,6 +432,7 @@ def main():
         'quick-then-slow': [Quick(i) for i in range(4)] + [Slow(i, 1.0) for i in range(6)],
         'death-then-work': [Die(0)] + [Slow(i, 0.5) for i in range(4)],
         'all-die-one-worker': [Die(0), Quick(1), Quick(2)],
+        'death-with-monitor': [Die(0), Slow(1, 0.5), Quick(2), Die(3)],
     }[scen]
     with tempfile.TemporaryDirectory() as d:
         storage = d
@@ -401,7 +445,14 @@ def main():
             storage = SlowStorage(d)
         lab = labtech.Lab(storage=storage, runner_backend=backend, max_workers=workers, continue_on_failure=True)
         t0 = time.time()
-        res = lab.run_tasks(tasks, disable_progress=True, disable_top=True)
+        show = scen == 'death-with-monitor'       # progress bars and the top-style monitor enabled (the run_tasks defaults)
+        try:
+            res = lab.run_tasks(tasks, disable_progress=not show, disable_top=not show)
+        except BaseException as ex:
+            print()
+            print(json.dumps(dict(returned=-1, raised=f'{type(ex).__name__}: {ex}'[:200], secs=round(time.time() - t0, 2))))
+            return
+        print()
         print(json.dumps(dict(returned=len(res), secs=round(time.time() - t0, 2))))
 
 if __name__ == '__main__':
@@ -469,6 +520,13 @@ def explore_real(tier, props):
                 found.append(dict(prop='C11', scenario=f'real/{backend}/death-then-work', message='run_tasks did not terminate within 40s after a worker was killed'))
             elif r['peak'] < 2:
                 found.append(dict(prop='C05', scenario=f'real/{backend}/death-then-work', message=f'after a worker died only {r["peak"]} task executed at a time with max_workers=2 and 4 runnable tasks'))
+            r = run_real('death-with-monitor', backend, 2, timeout=40)
+            runs += 1
+            if r['hung']:
+                found.append(dict(prop='C11', scenario=f'real/{backend}/death-with-monitor', message='run_tasks (monitor and progress bars enabled) did not terminate within 40s after two workers were killed'))
+            elif '"returned": 2' not in r['out']:
+                found.append(dict(prop='C10', scenario=f'real/{backend}/death-with-monitor',
+                                  message=f'with the task monitor enabled and two killed task processes, run_tasks(continue_on_failure=True) should return the 2 healthy tasks; got {r["out"][:200]}'))
             r = run_real('all-die-one-worker', backend, 1, timeout=25)
             runs += 1
             if r['hung']:
@@ -524,6 +582,21 @@ def replay_died_for_real():
     return None
 
 
+def replay_worker_ceiling():
+    """Function-level: the executor's worker ceiling is exactly the requested max_workers, or os.cpu_count() for None."""
+    import os as _os
+    from labtech.runners.process import ProcessExecutor
+    import multiprocessing as _mp
+    cpu = _os.cpu_count()
+    for req in (None, 1, 2, cpu, cpu + 3, 4 * cpu + 1):
+        ex = ProcessExecutor(mp_context=_mp.get_context('fork'), max_workers=req)
+        want = cpu if req is None else req
+        if ex.max_workers != want:
+            return dict(prop='C04' if ex.max_workers > want else 'C05', scenario='function-level/ProcessExecutor.__init__', schedule=f'max_workers={req}',
+                        message=f'ProcessExecutor(max_workers={req}) allows {ex.max_workers} worker processes on a {cpu}-CPU machine; the ceiling must be {want}')
+    return None
+
+
 def main():
     ap = argparse.ArgumentParser()
     ap.add_argument('--prop', default='')
@@ -532,6 +605,14 @@ def main():
     ap.add_argument('--obligation', default='')
     a = ap.parse_args()
     items = []
+    if 'the worker ceiling' in a.obligation:
+        try:
+            w = replay_worker_ceiling()
+        except Exception:
+            w = None
+        print(json.dumps(dict(reproduced=bool(w), level='function', summary=(w['scenario'] + ' [' + w['schedule'] + ']: ' + w['message']) if w else 'worker ceiling as requested for every probed max_workers',
+                              bounds=['max_workers in {None, 1, 2, cpu, cpu+3, 4*cpu+1}']), default=str))
+        return 1 if w else 0
     if 'DIED-FOR-REAL' in a.obligation or '_consume_result_queue' in a.obligation:
         try:
             w = replay_died_for_real()
@@ -547,15 +628,25 @@ def main():
         items.append(dict(name='explore:controlled-schedules', bounded=True,
                           bound=f'{len(scenarios(a.tier))} scenarios of <= 5 tasks, every completion order one task per wait (schedules run: {n}{", truncated by budget" if trunc else ""})',
                           violation=bool(mine), witness=mine[:3], other_properties=sorted({f['prop'] for f in found if f['prop'] != a.prop})))
-        if a.prop in ('C02', 'C01', ''):
+        if a.prop in ('C02', 'C01', 'C03', 'C06', ''):
             f3 = explore_multicall()
             mine3 = [f for f in f3 if not a.prop or f['prop'] == a.prop or a.prop == 'C01']
-            items.append(dict(name='explore:multi-call-histories', bounded=True, bound='2 histories of 3 run_tasks calls over the same task objects',
+            items.append(dict(name='explore:multi-call-histories', bounded=True, bound='2 histories of 3 run_tasks calls over the same task objects; 8 cold/warm call pairs over a caching storage (backend pairs x same/new Lab)',
                               violation=bool(mine3), witness=mine3[:3]))
+        if a.prop in ('C01', 'C02', 'C03', ''):
+            import replay.values as _V
+            why, nshape = _V.check_discovery()
+            items.append(dict(name='explore:dependency-discovery-shapes', bounded=True, bound=f'{nshape} task-bearing parameter shapes (sibling containers, repeated and equal objects, deep chains), checked against an independent walk and end to end',
+                              violation=bool(why), witness=[dict(prop=a.prop or 'C02', scenario='dependency-discovery', message=why)] if why else []))
         if a.prop in ('C01', 'C10', ''):
             w = replay_died_for_real()
             items.append(dict(name='explore:poll-vs-liveness-order', bounded=True, bound='one scripted interleaving at function level (_consume_result_queue with scripted queue/process doubles)',
                               violation=bool(w), witness=[w] if w else []))
+        if a.prop in ('C04', 'C05', ''):
+            w = replay_worker_ceiling()
+            mine_w = [w] if (w and (not a.prop or w['prop'] == a.prop or True)) else []
+            items.append(dict(name='explore:worker-ceiling', bounded=True, bound='ProcessExecutor(max_workers) for max_workers in {None, 1, 2, cpu, cpu+3, 4*cpu+1}',
+                              violation=bool(mine_w), witness=mine_w))
         if a.prop in ('C04', 'C05', 'C10', 'C11', ''):
             found2, runs = explore_real(a.tier, {a.prop} if a.prop else {'C04', 'C05', 'C10', 'C11'})
             mine2 = [f for f in found2 if not a.prop or f['prop'] == a.prop]
